@@ -23,6 +23,19 @@ def extra_entries():
         add('ReversePermutation/%d' % f, lambda f=f: T.ReversePermutation(f), [f])
         add('ActNorm/%d' % f, lambda f=f: _init_actnorm(T.ActNorm(f), [f]), [f])
         add('BatchNorm/%d' % f, lambda f=f: _init_batchnorm(T.BatchNorm(f), f), [f])
+    def warm(cls, **kw):
+        # eval mode, cache on, and the FIRST cached call is an inverse (as when sampling before evaluating densities)
+        def build():
+            t = cls(3, using_cache=True, **kw)
+            with torch.no_grad():
+                for p in t.parameters():
+                    p.add_(0.4 * torch.randn(p.shape))
+            return t
+        return build
+    add('NaiveLinearCachedInvFirst', warm(T.NaiveLinear), [3], extra={'warm_inverse': True})
+    add('LULinearCachedInvFirst', warm(T.LULinear, identity_init=False), [3], extra={'warm_inverse': True})
+    add('QRLinearCachedInvFirst', warm(T.QRLinear, num_householder=3), [3], extra={'warm_inverse': True})
+    add('SVDLinearCachedInvFirst', warm(T.SVDLinear, num_householder=2, identity_init=False), [3], extra={'warm_inverse': True})
     add('ActNorm/img', lambda: _init_actnorm(T.ActNorm(2), [2, 2, 3]), [2, 2, 3])
     add('ActNormFresh/3', lambda: T.ActNorm(3), [3])          # never initialised: evaluation mode must not initialise it
     add('BatchNormFresh/3', lambda: T.BatchNorm(3), [3], extra={'tol': 1e-4})
@@ -112,6 +125,9 @@ def jacobian_search(ctx, budget_s=300, entries=None, count=False):
         for regime in ('normal', 'fresh'):
             try:
                 t = build(e, gen, torch.float64, regime)
+                if e.extra.get('warm_inverse'):
+                    with torch.no_grad():
+                        t.inverse(torch.randn(2, *e.in_shape, dtype=torch.float64))
                 x = R.make_inputs(e, 2, gen, torch.float64, False)
                 c = R.make_context(e, 2, gen, torch.float64)
                 kind, y, ld = R.impl_call(t, x, c, False)
@@ -163,6 +179,9 @@ def roundtrip_search(ctx, budget_s=300, entries=None, count=False):
         for regime in ('zeros', 'normal', 'fresh'):
             try:
                 t = build(e, gen, torch.float64, regime)
+                if e.extra.get('warm_inverse'):
+                    with torch.no_grad():
+                        t.inverse(torch.randn(2, *e.in_shape, dtype=torch.float64))
                 x = R.make_inputs(e, 3, gen, torch.float64, False)
                 c = R.make_context(e, 3, gen, torch.float64)
                 kind, y, ld = R.impl_call(t, x, c, False)
